@@ -8,7 +8,8 @@ ID = 'C20'
 LEVEL = 'exploration'
 RULE = ('case = (programs of 2-3 threads, each 1-2 pformat calls on: an instance of a class whose printer is registered by '
         'name and not yet promoted (fresh class and key per case, so the first use happens in every schedule), an instance '
-        'of a subclass of such a class, of a directly registered class, of an unregistered class, lists/dicts holding them; '
+        'of a subclass of such a class, of a directly registered class, of an unregistered class, of a fresh struct-sequence '
+        'look-alike (field names resolved and cached on first print), lists/dicts holding them; '
         'schedule = list of (thread, number of package lines to run)). A deterministic scheduler built on sys.settrace '
         'pre-empts threads only at line boundaries inside the package; exactly one thread runs at a time. Exhaustive: ALL '
         'one-preemption schedules (thread A runs k lines, B runs to completion, A finishes; every k) for every ordered '
@@ -22,11 +23,12 @@ ASSUMPTIONS = ['interleavings are explored at package-line granularity under the
                'a controller timeout is a harness error (exit 2), never a violation']
 BUDGET = {'quick': {'random': 1600, 'shards': 16}, 'thorough': {'random': 60000, 'shards': 16}}
 
-KINDS = ['lazy', 'sub', 'direct', 'unreg', 'list-lazy', 'list-sub', 'dict-lazy', 'lazy2', 'subsub']
+KINDS = ['lazy', 'sub', 'direct', 'unreg', 'list-lazy', 'list-sub', 'dict-lazy', 'lazy2', 'subsub', 'seq', 'list-seq']
 PAIRS = [
     (['lazy'], ['lazy']), (['list-lazy'], ['list-lazy']), (['sub'], ['lazy']), (['lazy'], ['sub']), (['sub'], ['sub']),
     (['list-sub'], ['list-lazy']), (['dict-lazy'], ['list-sub']), (['lazy', 'lazy'], ['sub']), (['subsub'], ['sub']),
     (['lazy'], ['lazy2']), (['direct'], ['lazy']), (['unreg'], ['list-lazy']), (['lazy'], ['unreg']),
+    (['seq'], ['seq']), (['list-seq'], ['seq']), (['seq', 'lazy'], ['list-seq']),
 ]
 _uid = itertools.count()
 _cache = {}
@@ -49,10 +51,16 @@ def fresh():
     Lazy2 = mk('Lazy2', ())
     Direct = mk('Direct', ())
     Unreg = mk('Unreg', (), {'__repr__': lambda self: 'UNREG'})
+    # a struct-sequence look-alike (tuple subclass with n_fields etc. and a keyword-style repr): its field names are
+    # resolved from the repr and cached per class on first print - another lazily prepared piece of shared state
+    def _seq_repr(self):
+        return 'SeqLike(alpha=%r, beta=%r, gamma=%r)' % tuple(self)
+    SeqLike = mk('SeqLike', (tuple,), {'n_fields': 3, 'n_sequence_fields': 3, 'n_unnamed_fields': 0, '__repr__': _seq_repr})
+    SeqLike.__module__ = 'ppvseq'        # printed name must not depend on the family
     register_pretty(mod + '.Lazy')(lambda v, ctx: 'LAZY')
     register_pretty(mod + '.Lazy2')(lambda v, ctx: 'LAZY2')
     register_pretty(Direct)(lambda v, ctx: 'DIRECT')
-    return dict(lazy=Lazy, sub=Sub, subsub=SubSub, lazy2=Lazy2, direct=Direct, unreg=Unreg)
+    return dict(lazy=Lazy, sub=Sub, subsub=SubSub, lazy2=Lazy2, direct=Direct, unreg=Unreg, seq=SeqLike)
 
 
 def make_value(kind, fam):
@@ -60,6 +68,8 @@ def make_value(kind, fam):
         return [make_value(kind[5:], fam), 1]
     if kind.startswith('dict-'):
         return {'k': make_value(kind[5:], fam)}
+    if kind == 'seq':
+        return fam['seq']((1, 2, 3))
     return fam[kind]()
 
 
